@@ -1,7 +1,7 @@
 (* C16 -- the theorems about the SymbolTable model (statements re-exported by Properties/C16.v). *)
 From Coq Require Import List Arith Bool String Ascii NArith Lia Permutation.
 Import ListNotations.
-From PV Require Import C16.GenTables C16.Model C16.Names C16.Inv C16.MergeProofs C16.StateInv.
+From PV Require Import C16.GenTables C16.Model C16.Names C16.Inv C16.MergeProofs C16.RenameProofs C16.StateInv.
 Open Scope string_scope.
 Open Scope list_scope.
 
@@ -218,6 +218,20 @@ Proof.
   - destruct Hpost as [E _]. subst m. simpl. eapply TOK_frame; [exact HT | lia | intros s _; apply Hnm].
   - apply Hpost.
   - apply Hpost.
+Qed.
+
+(* a merge never renames a symbol that is in neither of its two tables *)
+Theorem merge_renames_local_ : forall h T anc Ot skip m ph oe,
+    TOK h T -> TOK h Ot -> (forall s, In s (sids T) -> ~ In s (sids Ot)) ->
+    merge h T anc Ot skip = (m, ph, oe) ->
+    forall s, ~ In s (sids T) -> ~ In s (sids Ot) -> s_name (hget (m_heap m) s) = s_name (hget h s).
+Proof.
+  intros h T anc Ot skip m ph oe HT HO Hd H s H1 H2.
+  destruct (merge_spec _ _ _ _ _ _ _ _ HT HO Hd H) as [h1 [[[Hlen Hnm] _] Hpost]].
+  destruct ph.
+  - destruct Hpost as [E _]. subst m. simpl. apply Hnm.
+  - destruct Hpost as [HM _]. rewrite (mi_frame _ _ _ _ HM s H1 H2). apply Hnm.
+  - destruct Hpost as [HM _]. rewrite (mi_frame _ _ _ _ HM s H1 H2). apply Hnm.
 Qed.
 
 (* ============================================================ 5. rejected => unchanged *)
